@@ -50,6 +50,9 @@ pub struct Cfg {
   pub allow_directed: bool,
   pub burst: Option<u8>,
   pub max_ticks: usize,
+  /// source timestamps attached by the application: 0 increasing, 1 all equal, 2 decreasing
+  #[serde(default)]
+  pub ts_mode: u8,
 }
 
 const SMALL: usize = 6;
@@ -96,6 +99,7 @@ impl Model for M {
   }
   fn run(&self, hist: &[Ev]) -> Outcome<Ev> {
     let mut sim = SimWriter::new(self.cfg.history, self.cfg.transient_local, FRAG, 64, false);
+    sim.ts_mode = self.cfg.ts_mode;
     let mut rm: BTreeMap<u8, RModel> = BTreeMap::new();
     // ledger: sn -> (payload len, directed to)
     let mut written: BTreeMap<i64, (usize, Option<u8>)> = BTreeMap::new();
@@ -181,6 +185,11 @@ impl Model for M {
         for sub in &parsed.subs {
           comparisons += 1;
           match sub {
+            Sub::Other(t) if t.starts_with("UNPARSABLE") => {
+              if last_step {
+                violation = violation.or(viol("unparsable-output", format!("the writer sent reader {dest} a datagram its own parser rejects: {t} (event {ev:?})")));
+              }
+            }
             Sub::Data { sn, payload, .. } => {
               let Some((len, to)) = written.get(sn) else {
                 if last_step { violation = violation.or(viol("phantom-data", format!("DATA for sequence number {sn}, which was never written, sent to reader {dest}"))); }
@@ -412,10 +421,22 @@ pub fn configs(tier: &str) -> Vec<(Cfg, BfsCfg)> {
             allow_directed: nreaders >= 2,
             burst: None,
             max_ticks: 2,
+            ts_mode: 0,
           },
           BfsCfg { max_depth: depth, threads: 16, wall_cap_s: if thorough { 300.0 } else { 8.0 }, state_cap: 5_000_000, merge: true },
         ));
       }
+    }
+  }
+  // application-chosen source timestamps that are equal or decreasing (the history is ordered by sequence number, whatever
+  // the application stamps): the single-reliable-reader mixes with KeepAll and KeepLast(1)
+  let base: Vec<(Cfg, BfsCfg)> = v.iter().filter(|(c, _)| c.initial.len() == 1 && c.late.is_empty() && (c.history == 0 || c.history == 1) && !c.transient_local).cloned().collect();
+  for (c, b) in base {
+    for (mode, name) in [(1u8, "equal source timestamps"), (2, "decreasing source timestamps")] {
+      let mut c2 = c.clone();
+      c2.ts_mode = mode;
+      c2.name = format!("{} / {name}", c.name);
+      v.push((c2, b.clone()));
     }
   }
   // resource-limit scenarios: a burst beyond the KeepAll resource limit of 32
@@ -435,6 +456,7 @@ pub fn configs(tier: &str) -> Vec<(Cfg, BfsCfg)> {
         allow_directed: false,
         burst: Some(40),
         max_ticks: 1,
+        ts_mode: 0,
       },
       BfsCfg { max_depth: if thorough { 5 } else { 4 }, threads: 16, wall_cap_s: if thorough { 120.0 } else { 6.0 }, state_cap: 2_000_000, merge: true },
     ));
